@@ -146,6 +146,19 @@ for it in range(n):
         err = None
         if ms != ms2:
             err = 'repeating the iteration gave different matches'
+        # two iterators over the same alignment object, advanced alternately, must each give the same sequence
+        try:
+            g1, g2 = sa.kbest_matches(**kkw), sa.kbest_matches(**kkw)
+            a1, a2 = [], []
+            for _ in range(len(ms) + 1):
+                for g, acc in ((g1, a1), (g2, a2)):
+                    m = next(g, None)
+                    if m is not None:
+                        acc.append((int(m.idx), float(m.value), [int(x) for x in m.segment]))
+            if a1 != ms or a2 != ms:
+                err = 'interleaved iterators give %r and %r, a single iteration gives %r' % (a1, a2, ms)
+        except Exception as ex:      # noqa
+            err = 'interleaved iteration raised %s: %s' % (type(ex).__name__, str(ex)[:80])
         if k is not None and len(ms) > k:
             err = 'more than k matches'
         if len(set(m[0] for m in ms)) != len(ms):
